@@ -474,19 +474,25 @@ class Item:
                 raise ExtractionError("%s: argument of map is not a closure" % self.name)
             pat = mc.group(1).strip()
             body = inner[mc.end():].strip()
+            pre = ""
             if mc.group(2):
                 mb = re.match(r"^\{\s*Ok\((.*)\)\s*\}$", body, re.S)
                 if not mb:
-                    raise ExtractionError("%s: closure with a return type whose body is not `{ Ok(..) }`" % self.name)
-                elem = mb.group(1).strip()
+                    # `{ let a = ..; let b = ..; Ok(E) }`: the statements in front of the result run once per element, a `?` in them leaves the function as before
+                    mb2 = re.match(r"^\{(.*;)\s*Ok\((.*)\)\s*\}$", body, re.S)
+                    if not mb2 or re.search(r"\breturn\b", mb2.group(1)):
+                        raise ExtractionError("%s: closure with a return type whose body is not `{ [statements;] Ok(..) }`" % self.name)
+                    pre, elem = mb2.group(1).strip() + "\n                ", mb2.group(2).strip()
+                else:
+                    elem = mb.group(1).strip()
             else:
                 elem = "(%s)?" % body
             K = str(k)
             recv = re.sub(r"\s+", "", m.group(1))
             fmt = lambda t: t.replace("{K}", K)
             new = ("{\n            let ghost verif_src%s = %s@;\n%s            let mut verif_out%s = Vec::new();\n            let mut verif_tc%s = verif_into_iter(%s);\n"
-                   "            while let Some(%s) = verif_tc%s.next()\n%s            {\n                verif_out%s.push(%s);\n%s            }\n%s            %s\n        }"
-                   % (K, recv, fmt(ghost_tpl), K, K, recv, pat, K, fmt(invariant_tpl), K, elem, fmt(end_tpl), fmt(after_tpl), ("verif_out%s" % K) if question else ("Ok(verif_out%s)" % K)))
+                   "            while let Some(%s) = verif_tc%s.next()\n%s            {\n                %sverif_out%s.push(%s);\n%s            }\n%s            %s\n        }"
+                   % (K, recv, fmt(ghost_tpl), K, K, recv, pat, K, fmt(invariant_tpl), pre, K, elem, fmt(end_tpl), fmt(after_tpl), ("verif_out%s" % K) if question else ("Ok(verif_out%s)" % K)))
             self.text = src[:m.start(1)] + new + src[end:]
             self.rewrites.append({"rule": "R14", "what": "`%s.into_iter().map(|%s| ..).try_collect()%s` desugared to the loop it is (push of each mapped element, error leaves the function)" % (recv, pat, "?" if question else "")})
         return k
